@@ -42,7 +42,7 @@
     * Props/C02multiZ.lean - THE RUN: `projOK M p sN cs` (decidable side condition, checked along the N-run: `brOK` for
       every broker step - answer well-formed for `p`, an appending answer comes from the leader of `p`; `delOK` for every
       deliver step - the set holds something of `p`, or the answer is not a connection error and no message of `p` is
-      held), `DeliverProj M p` (a named OPEN Prop: the projection of the `deliver` step under `delOK`),
+      held), `DeliverProj M p` (a named Prop, PROVED in Props/C02multiC2.lean: the projection of the `deliver` step under `delOK`),
       `ProjSim_partial` (PROVED from `DeliverProj`: `projOK` + `runN M {} cs = some sN` give a run of `Model.Pipeline`
       with the log, successes and errors of `p`; invariant `WRel (BRp p)`, induction step `proj_step_partial`), and
       `log_order_every_partition_partial` (LogOrder for `p`, provided the exhibited one-partition run satisfies
@@ -59,7 +59,7 @@
       of `p` is held and none is buffered hands over the EMPTY projection (the held message goes to the new buffer) -
       so the case is split on `hid` of `BRp`: hidden => no step; visible empty set => the `deliver` step of the
       one-partition worker on its empty set, no actions (`resp_emptyset`).
-    * Props/C02multiY.lean - `DeliverVisProj M p` (a named OPEN Prop, narrower than `DeliverProj`: the `deliver` step
+    * Props/C02multiY.lean - `DeliverVisProj M p` (a named Prop, PROVED in Props/C02multiC2.lean, narrower than `DeliverProj`: the `deliver` step
       for a set that holds SOMETHING of `p`), `deliverProj_of_vis : DeliverVisProj M p → DeliverProj M p` (PROVED),
       `ProjSim_partial'` / `log_order_every_partition_partial'` (as the unprimed ones, from `DeliverVisProj`);
       and the UNCONDITIONAL form: `projOKn` = `projOK` with `delOK` restricted to exclude exactly the unfinished case
@@ -85,7 +85,7 @@
       they are all of partition 0), and `proj_deliver_visible_parts_p`: the `deliver` step of a `.parts` answer for a
       set that holds something of `p` IS the `deliver` step of the one-partition model (answer `projV p r`, offsets
       from `base p`), `WRel (BRp p)` kept.
-    * Props/C02multiX.lean - `DeliverVisConnProj M p` (a named OPEN Prop: the `deliver` step of a CONNECTION-ERROR
+    * Props/C02multiX.lean - `DeliverVisConnProj M p` (a named Prop, PROVED in Props/C02multiC2.lean: the `deliver` step of a CONNECTION-ERROR
       answer `.conn a` for a set that holds something of `p`), `deliverVisProj_of_conn : DeliverVisConnProj M p →
       DeliverVisProj M p` (PROVED), `ProjSim_partial''` / `log_order_every_partition_partial''` (under `projOK`, from
       `DeliverVisConnProj`); and the UNCONDITIONAL form for runs whose delivered answers are all per-partition:
@@ -95,12 +95,21 @@
       is NOT computed, the run is existential).  `projOKp 2 0 {} exTwo` and `projOKp 2 1 {} exTwo` hold by `decide`;
       `ProjSim_parts` is instantiated on `exTwo` (log `[0, 1]`, successes `[(0,0),(1,1)]` for partition 0), and
       `log_order_every_partition_parts` on partition 1 with `splitOKs` as the hypothesis.
-  EXACTLY ONE single-step statement is open: `DeliverVisConnProj` (Props/C02multiX.lean) - a connection-error answer for
-  a set that holds something of `p` (all messages of `p` in the set and in the buffer re-queued or expired, `closing`
-  set, `abandon`, the re-check of a held message of `p`).  Not started, at either level (`recheck_proj`,
-  `bpActsN_mixed`, `resp_P0_out`'s pattern and `handle_conn` of Lemmas/C02sysBP.lean are the pieces it would reuse).
-  Everything else of `DeliverProj` is proved: no set / hidden set / visible empty set (`proj_deliver_noneOfP_p`),
-  visible set with a per-partition answer (`proj_deliver_visible_parts_p`).
+    * Props/C02multiC.lean, C02multiC2.lean - CONNECTION-ERROR answers and the assembly, PROVED: `handle_proj_conn`,
+      `resp_proj_conn`, `resp_P0_out_conn` (worker level: all messages of `p` in the set and in the buffer are
+      re-queued or expired on both sides, `closing` set, `recheck_proj` reused), `proj_deliver_visible_conn_p` (the
+      lift), `deliverVisConnProj_holds`, `deliverVisProj_holds`, `deliverProj_holds : DeliverProj M p`, and
+      `ProjSim_projOK` / `log_order_every_partition_projOK` = `ProjSim_partial` / `log_order_every_partition_partial`
+      with NO open hypothesis: under the decidable `projOK M p {} cs`, a run `runN M {} cs = some sN` projects on a
+      run of `Model.Pipeline` with the log, successes and errors of `p`.  Example `exConn` (a connection error for a
+      set with messages of both partitions; inside `projOK` for both partitions, outside `projOKp`).
+  NO single-step statement is open any more: EVERY choice of the model with several partitions, from
+  `WRel (BRp p)`-related states and under the per-step side conditions (`brOK`, `delOK`), is no step or one step of
+  the one-partition model.  What the side conditions EXCLUDE (so not covered): a broker answer that is not
+  well-formed for `p` or appends for `p` without coming from the leader of `p` (`brOK`); a `deliver` for a set that
+  holds nothing of `p` when the answer is a connection error or a message of `p` is held in waitForSpace (`delOK`:
+  these change the state of `p` - closing, the held message - without a step of a one-partition worker that has no
+  set at its bridge).
   Also not established: that the one-partition run exhibited by `ProjSim_partial` satisfies `splitOKs` (it is a
   hypothesis of `log_order_every_partition_partial`; it depends on the hidden/visible history, which the N-state alone
   does not determine), and the full `ProjSim` (no side condition).
